@@ -110,6 +110,7 @@ def parseOp (j : Json) : Option Op := do
   | some "addServer" => some (.addServer m s)
   | some "removeServer" => some (.removeServer m s)
   | some "removeAll" => some (.removeAll m)
+  | some "exitCtx" => some (.exitCtx m (getNat j "exc"))
   | some "addDest" =>
     some (.addDest m s { url := getNat j "url", owned := (getBool j "owned").getD true,
                          destId := optChars j "destId", name := optChars j "name", pt := optChars j "pt" })
@@ -160,6 +161,7 @@ def resJ : Res → Json
   | .dest d => Json.mkObj [("ok", Json.mkObj [("d", destJ d)])]
   | .filt f => Json.mkObj [("ok", Json.mkObj [("f", filtJ f)])]
   | .subs l => Json.mkObj [("ok", Json.mkObj [("S", listJ subJ l)])]
+  | .exited r => Json.mkObj [("ok", Json.mkObj [("exit", Json.bool r)])]
   | .dests l => Json.mkObj [("ok", Json.mkObj [("D", listJ destJ l)])]
   | .filts l => Json.mkObj [("ok", Json.mkObj [("F", listJ filtJ l)])]
   | .err e => e.toJson
